@@ -520,6 +520,10 @@ func mainVC(args []string) int {
 		fmt.Fprintln(os.Stderr, "error:", err)
 		return 2
 	}
+	fmt.Println("unknown callees (heap havoced):", sortedKeys(x.unknown))
+	fmt.Println("pure externals (result havoced):", sortedKeys(x.pureExt))
+	fmt.Println("assumed contracts/models:", sortedKeys(x.trusted))
+	fmt.Println("dropped:", sortedKeys(x.dropped))
 	var items []*oblItem
 	for _, o := range x.obls {
 		if len(args) > 2 && !strings.Contains(o.Name, args[2]) {
